@@ -1,4 +1,186 @@
 import Conc
-/-! # C11 — concurrent requests never lose or tear updates (placeholder while the model is being built) -/
+/-!
+# C11 — concurrent requests on a repository never lose or tear updates
+
+*Model* (`lean/Conc`): a handler is a program of atomic store actions (`Conc.Prog`: the calls of `store.Repo` in the
+order the Go handler makes them, and taking `Server.indexMu`); a concurrent execution is `Conc.exec`, which runs the
+next action of the thread the schedule names; `Conc.Disc` is the lock discipline of the tree (`none`: before the
+repair F15, `rw`: with `Server.indexMu`).  The sequential specification of a request is its own handler run alone
+(`Prog.alone`).  *Level: partial* — the granularity is the store action (what happens inside one is C12/C13's), and the
+linearizability theorems are stated for the *ideal* content-addressed blob store (`Conc.Ideal`: reading a digest does
+not depend on the state of the store; blob actions do not touch the index): that blobs are written before they are
+referenced and never change is what makes the real store behave like it, and is checked by the correspondence, not
+proved.  Nothing is assumed about `AddDesc` / `RmDesc` except in `tag_race_one_of`.
+
+*Tie*: `bin/check C11` (vlib/p_conc.py): the handlers of the real server are run under forced schedules at exactly this
+granularity (harness/cmd/reg/conc.go, scheduler hook by overlay) and compared line by line with `Conc.exec` on the
+`Upd` instance (driver `concdriver`): store-action trace of every request, answers, quiescent observation, and the set
+of sequential orders that explain them; all schedules of the curated cases are enumerated.
+-/
 namespace C11
+open Conc
+
+/-- **(c) referrers_linearizable — in fact every handler.**  Any number of concurrent requests of any kind (manifest
+    push with or without subject, manifest delete by tag or digest, manifest GET, tag listing, referrers GET, blob
+    GET/DELETE/upload; each admitted by the router) on the tree with `Server.indexMu`, any schedule: when all have
+    returned there is an order of the requests in which the handlers run one at a time leave the same index (manifests,
+    tags, referrers responses registered — of every repository) and give each request the answer it got. -/
+theorem referrers_linearizable {σ : Sig} [DecidableEq σ.R] (L : Ideal σ) (reqs : List (Req σ)) (hadm : ∀ q ∈ reqs, q.admitted)
+    (s0 : σ.S) (sched : List Nat) (fuel : Nat)
+    (hdone : (drain fuel (exec sched (Cfg.init s0 ((reqs.map (Req.prog .rw)).map fun p => [p])))).allDone = true) :
+    ∃ order : List Nat, order.Nodup ∧ (∀ t, t ∈ order ↔ t < reqs.length) ∧
+      Same (drain fuel (exec sched (Cfg.init s0 ((reqs.map (Req.prog .rw)).map fun p => [p])))).s
+        (spec (reqs.map (Req.prog .rw)) s0 order).1 ∧
+      ∀ t, t < reqs.length → ∃ a, (t, a) ∈ (spec (reqs.map (Req.prog .rw)) s0 order).2 ∧
+        ((drain fuel (exec sched (Cfg.init s0 ((reqs.map (Req.prog .rw)).map fun p => [p])))).thread t).answers = [a] := by
+  have hpre : ∀ p ∈ reqs.map (Req.prog .rw), Pre p ∧ p.isDone = false := by
+    intro p hp
+    obtain ⟨q, hq, rfl⟩ := List.mem_map.mp hp
+    exact req_pre q (hadm q hq)
+  have := rw_linearizable L (reqs.map (Req.prog .rw)) hpre s0 sched fuel hdone
+  simpa using this
+
+/-- the requests with one index action: pushes without a subject, deletes that update no referrers response, reads -/
+def oneIndexAction {σ : Sig} : Req σ → Prop
+  | .put q => q.refAdd = none
+  | .del q => ∀ d c, (q.refDel d c).isNone
+  | _ => True
+
+/-- **(a) index_action_atomic_lin.**  The special case of requests that have exactly one index action (push by tag or
+    digest without subject, tag delete, digest delete of a manifest without subject, tag listing, manifest and
+    referrers GET, blob requests): every schedule is equivalent — same answers, same final index — to a sequential
+    execution. -/
+theorem index_action_atomic_lin {σ : Sig} [DecidableEq σ.R] (L : Ideal σ) (reqs : List (Req σ))
+    (hadm : ∀ q ∈ reqs, q.admitted) (_hone : ∀ q ∈ reqs, oneIndexAction q)
+    (s0 : σ.S) (sched : List Nat) (fuel : Nat)
+    (hdone : (drain fuel (exec sched (Cfg.init s0 ((reqs.map (Req.prog .rw)).map fun p => [p])))).allDone = true) :
+    ∃ order : List Nat, order.Nodup ∧ (∀ t, t ∈ order ↔ t < reqs.length) ∧
+      Same (drain fuel (exec sched (Cfg.init s0 ((reqs.map (Req.prog .rw)).map fun p => [p])))).s
+        (spec (reqs.map (Req.prog .rw)) s0 order).1 ∧
+      ∀ t, t < reqs.length → ∃ a, (t, a) ∈ (spec (reqs.map (Req.prog .rw)) s0 order).2 ∧
+        ((drain fuel (exec sched (Cfg.init s0 ((reqs.map (Req.prog .rw)).map fun p => [p])))).thread t).answers = [a] :=
+  referrers_linearizable L reqs hadm s0 sched fuel hdone
+
+/-- **(b) tag_race_one_of.**  Any number (at least one) of concurrent pushes of one tag of one repository, each
+    accepted (the blobs it refers to can be read), any schedule: afterwards the tag resolves to one of the pushed
+    manifests.  `resolve` is what the tag resolves to in an index; the one fact used about `AddDesc` is that adding
+    the tagged descriptor makes the tag resolve to it (`C03.push_tag` for the exact model of `types.Index`). -/
+theorem tag_race_one_of {σ : Sig} [DecidableEq σ.R] (L : Ideal σ) (qs : List (PutReq σ)) (hne : qs ≠ []) (r : σ.R)
+    (hq : ∀ q ∈ qs, q.r = r ∧ q.pre = none ∧ q.early = none ∧ q.refAdd = none ∧ ∀ g ∈ q.refs, (L.rd q.r g).isSome)
+    (resolve : σ.Ix → Option σ.G) (hadd : ∀ q ∈ qs, ∀ ix, resolve (L.add ix q.entry q.children) = some q.g)
+    (s0 : σ.S) (sched : List Nat) (fuel : Nat)
+    (hdone : (drain fuel (exec sched (Cfg.init s0 ((qs.map (put .rw)).map fun p => [p])))).allDone = true) :
+    ∃ q ∈ qs, resolve (σ.index (drain fuel (exec sched (Cfg.init s0 ((qs.map (put .rw)).map fun p => [p])))).s r) = some q.g := by
+  have hpre : ∀ p ∈ qs.map (put .rw), Pre p ∧ p.isDone = false := by
+    intro p hp
+    obtain ⟨q, hq', rfl⟩ := List.mem_map.mp hp
+    exact put_pre q (hq q hq').2.1
+  obtain ⟨order, _, hmem, hsame, _⟩ := rw_linearizable L (qs.map (put .rw)) hpre s0 sched fuel hdone
+  have hlen : 0 < qs.length := List.length_pos_iff.mpr hne
+  rcases List.eq_nil_or_concat order with hnil | ⟨init, t, rfl⟩
+  · have : 0 ∈ order := (hmem 0).mpr (by simpa using hlen)
+    rw [hnil] at this; cases this
+  · have ht : t < qs.length := by simpa using (hmem t).mp (by simp)
+    have hget : (qs.map (put .rw))[t]? = some (put .rw qs[t]) := by simp [ht]
+    have hqt := hq qs[t] (List.getElem_mem ht)
+    refine ⟨qs[t], List.getElem_mem ht, ?_⟩
+    rw [hsame r, List.concat_eq_append, spec_snoc _ s0 init t _ hget]
+    obtain ⟨ix, hix⟩ := put_alone_index L qs[t] hqt.2.1 hqt.2.2.1 hqt.2.2.2.1 hqt.2.2.2.2 (spec (qs.map (put .rw)) s0 init).1
+    rw [← hqt.1, hix]
+    exact hadd _ (List.getElem_mem ht) ix
+
+/-! ## The tree before the repair (no handler-level lock): witnesses, decided by the kernel
+
+Store `Conc.Toy` (numbers for names; the handler programs are the generic ones).  The schedules are those the harness
+replays on the real server (corpus/C11). -/
+section witnesses
+open Conc.Toy
+
+/-- repository 0 holds the subject 9 -/
+def subjectOnly : S := store { mans := [.man 9 none] }
+def twoArtifacts (disc : Disc) : List (Prog sig) := [put disc (putReq 0 1 none (some 9)), put disc (putReq 0 2 none (some 9))]
+/-- T1 up to the `BlobCreate` of its new referrers response, T2 to completion, T1 to completion -/
+def f15Schedule : List Nat := [0, 0, 0, 0, 0, 0, 1, 1, 1, 1, 1, 1, 1, 0]
+
+/-- **(d) F15, lost update.**  Without the lock two concurrent artifacts of one subject are both acknowledged and only one
+    is registered as a referrer … -/
+theorem lost_update_without_lock :
+    (run (twoArtifacts .none) subjectOnly f15Schedule).answers = [[.created], [.created]] ∧
+    ((run (twoArtifacts .none) subjectOnly f15Schedule).s.index 0).resp = [(9, .resp 9 [1])] ∧
+    ((run (twoArtifacts .none) subjectOnly f15Schedule).s.index 0).mans = [.man 9 none, .man 1 (some 9), .man 2 (some 9)] := by
+  decide
+
+/-- … with `indexMu` the same schedule registers both -/
+theorem same_schedule_with_lock :
+    ((run (twoArtifacts .rw) subjectOnly f15Schedule).s.index 0).resp = [(9, .resp 9 [1, 2])] := by decide
+
+/-- … and so does **every** schedule, of any length (a corollary of `rw_linearizable` on the toy store) -/
+theorem two_artifacts_every_schedule (sched : List Nat) (fuel : Nat)
+    (hdone : (drain fuel (exec sched (Cfg.init subjectOnly ((twoArtifacts .rw).map fun p => [p])))).allDone = true) :
+    ((drain fuel (exec sched (Cfg.init subjectOnly ((twoArtifacts .rw).map fun p => [p])))).s.index 0).resp = [(9, .resp 9 [1, 2])] ∨
+    ((drain fuel (exec sched (Cfg.init subjectOnly ((twoArtifacts .rw).map fun p => [p])))).s.index 0).resp = [(9, .resp 9 [2, 1])] := by
+  have hpre : ∀ p ∈ twoArtifacts .rw, Pre p ∧ p.isDone = false := by
+    intro p hp
+    simp [twoArtifacts] at hp
+    rcases hp with rfl | rfl <;> exact put_pre _ rfl
+  obtain ⟨order, hn, hm, hsame, _⟩ := rw_linearizable Toy.ideal (twoArtifacts .rw) hpre subjectOnly sched fuel hdone
+  have h0 := hsame (show Toy.sig.R from (0 : Nat))
+  change (drain fuel (exec sched (Cfg.init subjectOnly ((twoArtifacts .rw).map fun p => [p])))).s.index 0 = _ at h0
+  rw [h0]
+  rcases order_two order hn (by simpa [twoArtifacts] using hm) with rfl | rfl
+  · left; decide
+  · right; decide
+
+/-- a push of an artifact racing with the delete of the same digest: without the lock the manifest ends up deleted and
+    still listed as a referrer (no sequential order gives that) -/
+def pushAndDelete (disc : Disc) : List (Prog sig) :=
+  [put disc (putReq 0 1 none (some 9)), del disc (delReq 0 (byDigest (.man 1 (some 9))))]
+def withArtifact : S := store { mans := [.man 9 none, .man 1 (some 9)], resp := [(9, .resp 9 [1])] }
+
+theorem ghost_referrer_without_lock :
+    (run (pushAndDelete .none) withArtifact [0, 0, 0, 0, 1, 1, 1, 1, 1, 1, 1, 0, 0, 0, 0, 1]).answers = [[.created], [.deleted]] ∧
+    ((run (pushAndDelete .none) withArtifact [0, 0, 0, 0, 1, 1, 1, 1, 1, 1, 1, 0, 0, 0, 0, 1]).s.index 0).mans = [.man 9 none] ∧
+    ((run (pushAndDelete .none) withArtifact [0, 0, 0, 0, 1, 1, 1, 1, 1, 1, 1, 0, 0, 0, 0, 1]).s.index 0).resp = [(9, .resp 9 [1])] := by
+  decide
+
+theorem ghost_referrer_schedule_with_lock :
+    ((run (pushAndDelete .rw) withArtifact [0, 0, 0, 0, 1, 1, 1, 1, 1, 1, 1, 0, 0, 0, 0, 1]).s.index 0).mans = [.man 9 none] ∧
+    ((run (pushAndDelete .rw) withArtifact [0, 0, 0, 0, 1, 1, 1, 1, 1, 1, 1, 0, 0, 0, 0, 1]).s.index 0).resp = [(9, .resp 9 [])] := by
+  decide
+
+/-- two deletes of one tag: without the lock both are acknowledged; with it the second one is answered not-found -/
+def twoDeletes (disc : Disc) : List (Prog sig) := [del disc (delTagReq 0 5), del disc (delTagReq 0 5)]
+def tagged : S := store { mans := [.man 1 none], tags := [(5, .man 1 none)] }
+
+theorem double_delete_ack_without_lock :
+    (run (twoDeletes .none) tagged [0, 0, 1, 1, 0, 1]).answers = [[.deleted], [.deleted]] ∧
+    (run (twoDeletes .rw) tagged [0, 0, 1, 1, 0, 1]).answers = [[.deleted], [.notFound]] := by decide
+
+/-- a client reads a tag and then the referrers of its subject while the push of the tagged artifact is between its two
+    index updates: without the lock it gets the manifest and a referrers list without it; with the lock the reads wait
+    for the push and see the manifest and its entry -/
+def pushAndTwoReads (disc : Disc) : List (List (Prog sig)) :=
+  [[put disc (putReq 0 1 (some 5) (some 9))], [mget disc (getReq 0 (byTag 5)), refs disc (refsReq 0 9)]]
+
+theorem torn_reads_without_lock :
+    (drain 64 (exec [0, 0, 0, 0, 0, 0, 1, 1, 1, 1, 1, 0] (Cfg.init subjectOnly (pushAndTwoReads .none)))).answers =
+      [[.created], [.man (.man 1 (some 9)), .refs []]] ∧
+    (drain 64 (exec [0, 0, 0, 0, 0, 0, 1, 1, 1, 1, 1, 0] (Cfg.init subjectOnly (pushAndTwoReads .rw)))).answers =
+      [[.created], [.man (.man 1 (some 9)), .refs [1]]] := by decide
+end witnesses
+
+/-! ## The hypotheses are satisfiable -/
+
+/-- an ideal store exists (the toy store), every handler program has the shape the theorem asks for, and executions
+    that run to the end exist -/
+example : Nonempty (Ideal Toy.sig) := ⟨Toy.ideal⟩
+example : (Req.put (Toy.putReq 0 1 none (some 9)) : Req Toy.sig).admitted ∧ oneIndexAction (Req.put (Toy.putReq 0 1 (some 5) none) : Req Toy.sig) :=
+  ⟨rfl, rfl⟩
+example : (Toy.run (twoArtifacts .rw) subjectOnly f15Schedule).allDone = true := by decide
+example : (Toy.run (twoArtifacts .rw) subjectOnly []).allDone = true := by decide
+/-- `tag_race_one_of`: on the toy index a pushed tag resolves to the pushed manifest -/
+example (q : PutReq Toy.sig) (t : Nat) (h : q.entry = { dig := q.g, tag := some t }) (ix : Toy.Ix) :
+    ((Toy.ideal.add ix q.entry q.children).tags.find? (fun p => p.1 == t)).map (·.2) = some q.g := by
+  simp [Toy.ideal, Toy.Ix.add, h]
+  rfl
 end C11
